@@ -190,6 +190,17 @@ var StdAtoms = []Atom{
 	}},
 	{"DIVt", func(t *Tok) string { return "<div>" + t.W(20) + "</div>" }},
 	{"SCR", func(t *Tok) string { return "<script>var " + t.W(1) + " = 1;</script>" }},
+	{"TXT", func(t *Tok) string { return " " + t.W(19) + " " }},
+	{"TBLh", func(t *Tok) string {
+		return "<table><tr><th>" + t.W(1) + "</th><th>" + t.W(1) + "</th><th>" + t.W(1) + "</th></tr><tr><td>" + t.W(1) + " <span style=\"visibility:hidden\">" + t.W(1) + "</span></td><td><!-- c --></td><td><span hidden>" + t.W(1) + "</span></td></tr><tr><td>" + t.W(1) + "</td><td aria-hidden=\"true\">" + t.W(1) + "</td><td>" + t.W(1) + "</td></tr></table>"
+	}},
+	{"LItbl", func(t *Tok) string {
+		return "<ul><li>" + t.W(14) + " <table><tr><th>" + t.W(1) + "</th><th>" + t.W(1) + "</th></tr><tr><td>" + t.W(1) + "</td><td>" + t.W(1) + "</td></tr></table> " + t.W(6) + "</li><li>" + t.W(9) + "</li></ul>"
+	}},
+	{"SIDE", func(t *Tok) string {
+		return "<div class=\"sidebar\">" + link(t, 2) + " " + link(t, 2) + " " + link(t, 1) + "</div>"
+	}},
+	{"IMGlead", func(t *Tok) string { return "<div class=\"hero\">" + img(t) + "</div>" }},
 }
 
 // Skeletons (start states).
